@@ -543,6 +543,22 @@ def run_dstu(ctx, c):
         ctx.cls("pubkey_invalid_not_judged")
     if changed:
         ctx.nontrivial("dstu_alt", ci, alt, r == 0, judged)
+    # every octet of the zero padding between order_no and ld / 16, in both halves: a bit set there is an alteration of the signature (rejected before any curve arithmetic)
+    for ld2 in lds:
+        h2 = ld2 // 16
+        if h2 == ono:
+            continue
+        ms2 = RD.sig_enc(M, ld2, ri, si)
+        pos = sorted(set(list(range(ono, min(h2, ono + 3))) + [h2 - 1]))
+        for j in pos:
+            for hf in (0, h2):
+                a = bytearray(ms2); a[j + hf] ^= 1 << ((c["bit"] + j) % 8)
+                r = x.call("dstuVerify", prm, ld2, HB, len(H), x.buf(bytes(a)), PUB)
+                if r == 0:
+                    raise Fail("dstuVerify(%s) accepts a signature with bit set in padding octet %d of the %s half (ld=%d order_no=%d hash=%s sig=%s pubkey=%s)" %
+                               (name, j, "s" if hf else "r", ld2, ono, H.hex(), bytes(a).hex(), Qb.hex()))
+                ctx.count(1)
+        ctx.nontrivial("dstu_pad", ci, ld2)
     ctx.cls("alt_" + alt, "curve%d" % m, "h_" + hk, "d_" + c["d"])
     ctx.sample(c)
 
